@@ -1136,7 +1136,7 @@ def run(ctx: common.Ctx):
     # ---- exact trees: model + dense ---------------------------------------------------
     g = Gen(rng, True, max_depth, max_n)
     specs, reqs, bls, brs = [], [], [], []
-    n_exact = ctx.n(3000, 12000)
+    n_exact = ctx.n(2200, 12000)
     tries = 0
     while len(specs) < n_exact and tries < 20 * n_exact:
         tries += 1
@@ -1167,7 +1167,7 @@ def run(ctx: common.Ctx):
         check_tree(ctx, sp, bl, br, line, deep=True)
     # ---- dense-only trees ---------------------------------------------------------------
     g2 = Gen(rng, False, max_depth, max_n)
-    n_dense = ctx.n(3000, 12000)
+    n_dense = ctx.n(2200, 12000)
     done = 0
     tries = 0
     while done < n_dense and tries < 20 * n_dense:
